@@ -2,6 +2,7 @@ package main
 
 import (
 	"bufio"
+	"context"
 	"encoding/json"
 	"flag"
 	"fmt"
@@ -30,6 +31,7 @@ type plan struct {
 	NotDecided []string
 	Bounded    []string
 	Refines    [][2]string
+	Thorough   [][2]string // label, shell command: independent or bounded cross-checks run in the thorough tier only
 }
 
 func readPlan(path string) (*plan, error) {
@@ -78,6 +80,13 @@ func readPlan(path string) (*plan, error) {
 			}
 		case "lemma":
 			p.Lemmas = append(p.Lemmas, rest)
+		case "thorough":
+			// thorough <label> :: <shell command run in /verif; exit 0 = holds>
+			parts := strings.SplitN(rest, "::", 2)
+			if len(parts) != 2 {
+				return nil, fmt.Errorf("%s: thorough <label> :: <command>", path)
+			}
+			p.Thorough = append(p.Thorough, [2]string{strings.TrimSpace(parts[0]), strings.TrimSpace(parts[1])})
 		case "refine":
 			// refine <implementation method> <interface method key>
 			f := strings.Fields(rest)
@@ -241,6 +250,37 @@ func checkCmd(args []string) {
 		pu := &unit{name: "prelude lemmas", presolved: true, pos: filepath.Join(*root, "specs", "prelude_lemmas")}
 		pu.ex = &vc.Exec{P: prog, Out: vc.CheckPreludeLemmas(filepath.Join(*root, "specs", "prelude_lemmas"), timeout)}
 		units = append(units, pu)
+	}
+	if *tier == "thorough" && len(pl.Thorough) > 0 {
+		// independent / bounded cross-checks (labelled as such in the evidence; never counted as deductive proof of the property)
+		xu := &unit{name: "thorough cross-checks", presolved: true, pos: *planPath}
+		xs := vc.NewScript()
+		for _, tc := range pl.Thorough {
+			o := &vc.Obligation{Name: "thorough:" + tc[0], Func: "thorough", Kind: "cross-check", Expect: "unsat", Text: "independent or bounded cross-check: " + tc[1]}
+			startT := time.Now()
+			ctx, cancel := context.WithTimeout(context.Background(), 25*time.Minute)
+			cmd := exec.CommandContext(ctx, "sh", "-c", tc[1])
+			cmd.Dir = *root
+			cmd.Env = append(os.Environ(), "VERIF_REPO="+*repo)
+			out, err := cmd.CombinedOutput()
+			cancel()
+			o.TimeS = time.Since(startT).Seconds()
+			o.Solver = "external:" + tc[0]
+			if err == nil {
+				o.Status = "discharged"
+			} else {
+				o.Status = "failed"
+				t := string(out)
+				if len(t) > 3000 {
+					t = t[len(t)-3000:]
+				}
+				o.Model = t
+				o.Detail = err.Error()
+			}
+			xs.Obls = append(xs.Obls, o)
+		}
+		xu.ex = &vc.Exec{P: prog, Out: xs}
+		units = append(units, xu)
 	}
 	if *tier == "thorough" {
 		for i, u := range units {
